@@ -64,6 +64,7 @@ type Delivered struct {
 	Seq    uint64
 	Key    string
 	Offset models.Offset
+	OffPtr *models.Offset
 	Snap   [2]uint64
 	Ctx    *models.ListenerContext
 	Time   int64
@@ -87,11 +88,11 @@ func describeEvent(ev interface{}) *Delivered {
 	d := &Delivered{}
 	switch e := ev.(type) {
 	case models.DcpMutation:
-		d.Kind, d.Vb, d.Seq, d.Key, d.Offset = "mutation", e.VbID, e.SeqNo, string(e.Key), *e.Offset
+		d.Kind, d.Vb, d.Seq, d.Key, d.Offset, d.OffPtr = "mutation", e.VbID, e.SeqNo, string(e.Key), *e.Offset, e.Offset
 	case models.DcpDeletion:
-		d.Kind, d.Vb, d.Seq, d.Key, d.Offset = "deletion", e.VbID, e.SeqNo, string(e.Key), *e.Offset
+		d.Kind, d.Vb, d.Seq, d.Key, d.Offset, d.OffPtr = "deletion", e.VbID, e.SeqNo, string(e.Key), *e.Offset, e.Offset
 	case models.DcpExpiration:
-		d.Kind, d.Vb, d.Seq, d.Key, d.Offset = "expiration", e.VbID, e.SeqNo, string(e.Key), *e.Offset
+		d.Kind, d.Vb, d.Seq, d.Key, d.Offset, d.OffPtr = "expiration", e.VbID, e.SeqNo, string(e.Key), *e.Offset, e.Offset
 	default:
 		d.Kind = fmt.Sprintf("%T", ev)
 	}
